@@ -265,8 +265,11 @@ func (g *gctx) defineLCA() string {
 	if r.Intn(5) < 2 { // every single-field perturbation of the evidence
 		muts := []string{"badsig", "badsiglast", "fewsig", "flagabs", "flagnil", "sigaddr", "sigaddrnil", "sigaddr2", "cmheight",
 			"d0", "d1", "d2", "d3", "d4", "round", "cvpow", "byzdrop", "byzextra", "byzpow", "byzaddr", "byzswap", "byzone",
-			"sigaddr", "sigaddrnil", "flagnil"}
+			"sigaddr", "sigaddrnil", "flagnil", "flagnil1", "flagabs1", "sigaddr1", "sigaddrnil1"}
 		mut = muts[r.Intn(len(muts))]
+		if r.Intn(5) == 0 { // who counts as a signer: nil / absent / misaddressed slots of members
+			mut = []string{"flagnil", "flagnil1", "flagabs1", "sigaddr1", "sigaddrnil1"}[r.Intn(5)]
+		}
 	}
 	common := g.pickHeight()
 	if common < 1 {
@@ -295,6 +298,11 @@ func (g *gctx) defineLCA() string {
 	gen := "0"
 	if mut == "none" && atk != "same" {
 		gen = "1"
+		for _, v := range g.blk(common).vals { // the attackers must hold keys of the common set
+			if v.addr != v.pk {
+				gen = "0"
+			}
+		}
 	}
 	if cfh > g.N {
 		cft = g.blk(g.N).t - int64(r.Intn(2))*1000000000
@@ -610,6 +618,72 @@ func genCase(r *rand.Rand, long bool) core.Case {
 	return core.Case{Kind: kind, Ops: g.ops}
 }
 
+var lcaMuts = []string{"none", "badsig", "badsiglast", "fewsig", "flagabs", "flagabs1", "flagnil", "flagnil1", "sigaddr", "sigaddr1",
+	"sigaddrnil", "sigaddrnil1", "sigaddr2", "cmheight", "d0", "d1", "d2", "d3", "d4", "round", "cvpow", "byzdrop", "byzextra", "byzpow",
+	"byzaddr", "byzswap", "byzone"}
+
+// genLCASweep: every single-field perturbation of every attack kind, placed where verification is
+// reached (headers present, nothing expires) and where one changed slot does not by itself break
+// the +2/3 / +1/3 thresholds (4..5 validators of similar power)
+func genLCASweep(r *rand.Rand) core.Case {
+	N := int64(8)
+	g := &gctx{r: r, N: N, M: 1 << 20, genu: map[string]bool{}, kindOf: map[string]string{}}
+	g.do("ctx A=100 D=0 M=1048576")
+	nv := 4 + r.Intn(2)
+	pw := []int64{10, 10, 10, 10, 10}
+	if r.Intn(2) == 0 {
+		pw = []int64{10, 9, 8, 7, 6}
+	}
+	var toks []string
+	for k := 0; k < nv; k++ {
+		toks = append(toks, fmt.Sprintf("%s:%d:%s", kt(k), pw[k], kt(k)))
+	}
+	t := int64(0)
+	for h := int64(1); h <= N; h++ {
+		t += 1000000000
+		g.emitBlk(t, toks)
+	}
+	g.do(fmt.Sprintf("init h=%d", N))
+	g.curH, g.storeH = N, N
+	atks := []string{"lunatic", "equiv", "amnesia"}
+	perm := r.Perm(len(lcaMuts))
+	for _, pi := range perm {
+		mut := lcaMuts[pi]
+		atk := atks[r.Intn(3)]
+		common := 1 + r.Int63n(4)
+		cfh := common
+		if atk == "lunatic" {
+			cfh = common + 1 + r.Int63n(2)
+		}
+		b := g.blk(common)
+		gen := "0"
+		if mut == "none" {
+			gen = "1"
+		}
+		id := g.newID("l")
+		line, ok := g.complete(fmt.Sprintf("ev id=%s kind=lca common=%d cfh=%d cft=%d tvp=%d t=%d tag=%s.%s gen=%s", id, common, cfh,
+			g.blk(cfh).t+int64(r.Intn(2)), total(b), b.t, atk, mut, gen))
+		if !ok || g.do(line) != "ok" {
+			continue
+		}
+		g.ids = append(g.ids, id)
+		mutHist["sweep."+atk+"."+mut]++
+		switch r.Intn(4) {
+		case 0:
+			g.do("check l=" + id)
+		case 1:
+			g.do("recv l=" + id)
+		default:
+			g.do("add e=" + id)
+		}
+	}
+	g.do("pe max=-1")
+	if g.c != nil && g.c.evDB != nil {
+		g.c.evDB.Close()
+	}
+	return core.Case{Kind: "lca-sweep", Ops: g.ops}
+}
+
 // genBacklog: a pending backlog larger than one block's worth of evidence (small Evidence.MaxBytes,
 // limits that do not expire it), carried across restarts and drained block by block
 func genBacklog(r *rand.Rand) core.Case {
@@ -858,6 +932,9 @@ func gen(r *rand.Rand, tier string, emit func(core.Case)) {
 	}
 	for i := 0; i < 2*nl; i++ {
 		emit(genBacklog(r))
+	}
+	for i := 0; i < nl/2; i++ {
+		emit(genLCASweep(r))
 	}
 	// malformed streams: ops before any context, wrong order
 	for i := 0; i < 20; i++ {
